@@ -26,6 +26,8 @@ func main() {
 	if len(os.Args) < 2 {
 		usage()
 	}
+	known := loadKnown()
+	world.IsKnown = func(prop, fp string) bool { return known.match(prop, fp) != nil }
 	switch os.Args[1] {
 	case "run":
 		cmdRun(os.Args[2:])
